@@ -717,5 +717,114 @@ inline ClassAdapter<SH> xshape_adapter(const std::string& name) {
   return A;
 }
 
+// ---------------------------------------------------------------------------------------------------
+// (f) solver states: PIP problems whose solution trees have decision nodes and artificial parameters;
+// MIP problems with integer variables, branch-and-bound, cached feasible / optimizing points
+inline std::string pip_tree_shape(const PPL::PIP_Tree_Node* n) {
+  if (n == 0) return "_";
+  std::string s; unsigned na = 0;
+  for (PPL::PIP_Tree_Node::Artificial_Parameter_Sequence::const_iterator i = n->art_parameter_begin(); i != n->art_parameter_end(); ++i) ++na;
+  if (const PPL::PIP_Decision_Node* d = n->as_decision())
+    return "D" + std::to_string(na) + "(" + pip_tree_shape(d->child_node(true)) + "," + pip_tree_shape(d->child_node(false)) + ")";
+  return "S" + std::to_string(na);
+}
+
+inline ClassAdapter<PPL::PIP_Problem> pip_tree_adapter() {
+  typedef PPL::PIP_Problem D; typedef Mut<D> M;
+  ClassAdapter<D> A; A.name = "PIP_Problem(decision trees)";
+  Variable i(0), j(1), n(2), m(3);
+  std::function<D*()> doc = [i, j, n, m]() {
+    D* p = new D(4); Variables_Set ps; ps.insert(n); ps.insert(m); p->add_to_parameter_space_dimensions(ps);
+    p->add_constraint(3 * j >= -2 * i + 8); p->add_constraint(j <= 4 * i - 4); p->add_constraint(j <= m); p->add_constraint(i <= n); return p; };
+  VX_INIT("pip{3j>=-2i+8,j<=4i-4,j<=m,i<=n; n,m params}", doc);
+  VX_INIT("same, solved", [doc]() { D* p = doc(); (void)p->solve(); return p; });
+  VX_INIT("same, solved with CUTTING_STRATEGY_ALL", [doc]() { D* p = doc(); p->set_control_parameter(D::CUTTING_STRATEGY_ALL); (void)p->solve(); return p; });
+  VX_INIT("same, solved, then i+j<=n added (not re-solved)", [doc, i, j, n]() { D* p = doc(); (void)p->solve(); p->add_constraint(i + j <= n); return p; });
+  VX_INIT("pip{2i>=n,i<=5; n param; j,m unconstrained}, solved", [i, n]() { D* p = new D(4); Variables_Set ps; ps.insert(n); p->add_to_parameter_space_dimensions(ps); p->add_constraint(2 * i >= n); p->add_constraint(i <= 5); (void)p->solve(); return p; });
+  VX_INIT("pip{i>=n,i<=m,n>=m+1; n,m params} (unfeasible context), solved", [i, n, m]() { D* p = new D(4); Variables_Set ps; ps.insert(n); ps.insert(m); p->add_to_parameter_space_dimensions(ps); p->add_constraint(i >= n); p->add_constraint(i <= m); p->add_constraint(n >= m + 1); (void)p->solve(); return p; });
+  VX_INIT("doc problem with big parameter m, solved", [doc]() { D* p = doc(); p->set_big_parameter_dimension(3); (void)p->solve(); return p; });
+  VX_MUT("add_constraint(j>=1)", [j](D& p, const D*) { p.add_constraint(j >= 1); return std::string(); });
+  VX_MUT("add_constraint(i+j<=n)", [i, j, n](D& p, const D*) { p.add_constraint(i + j <= n); return std::string(); });
+  VX_MUT("add_constraint(2i+3j>=m-1)", [i, j, m](D& p, const D*) { p.add_constraint(2 * i + 3 * j >= m - 1); return std::string(); });
+  VX_MUT("add_constraint(n<=5)", [n](D& p, const D*) { p.add_constraint(n <= 5); return std::string(); });
+  VX_MUT("add_constraint(2m>=n+1)", [n, m](D& p, const D*) { p.add_constraint(2 * m >= n + 1); return std::string(); });
+  VX_MUT("add_constraint(3i==n)", [i, n](D& p, const D*) { p.add_constraint(3 * i == n); return std::string(); });
+  VX_MUT("add_constraints({i>=0,j>=0})", [i, j](D& p, const D*) { PPL::Constraint_System cs; cs.insert(i >= 0); cs.insert(j >= 0); p.add_constraints(cs); return std::string(); });
+  VX_MUT("add_space_dimensions_and_embed(1,0)", [](D& p, const D*) { p.add_space_dimensions_and_embed(1, 0); return std::string(); });
+  VX_MUT("add_space_dimensions_and_embed(0,1)", [](D& p, const D*) { p.add_space_dimensions_and_embed(0, 1); return std::string(); });
+  VX_MUT("set_cutting(FIRST)", [](D& p, const D*) { p.set_control_parameter(D::CUTTING_STRATEGY_FIRST); return std::string(); });
+  VX_MUT("set_cutting(DEEPEST)", [](D& p, const D*) { p.set_control_parameter(D::CUTTING_STRATEGY_DEEPEST); return std::string(); });
+  VX_MUT("set_cutting(ALL)", [](D& p, const D*) { p.set_control_parameter(D::CUTTING_STRATEGY_ALL); return std::string(); });
+  VX_MUT("set_pivot(MAX_COLUMN)", [](D& p, const D*) { p.set_control_parameter(D::PIVOT_ROW_STRATEGY_MAX_COLUMN); return std::string(); });
+  VX_MUT("set_big_parameter_dimension(2)", [](D& p, const D*) { p.set_big_parameter_dimension(2); return std::string(); });
+  VX_MUT("solve()+print", [](D& p, const D*) { return pip_tree_text(p); });
+  VX_MUT("solution() shape", [](D& p, const D*) { return pip_tree_shape(p.solution()); });
+  VX_MUT("optimizing_solution() shape", [](D& p, const D*) { return pip_tree_shape(p.optimizing_solution()); });
+  VX_MUT("is_satisfiable()", [](D& p, const D*) { return b2s(p.is_satisfiable()); });
+  VX_MUT("clear()", [](D& p, const D*) { p.clear(); return std::string(); });
+  VX_OBS("OK()", [](D& p, const D*) { return b2s(p.OK()); });
+  VX_OBS("print", [](D& p, const D*) { return io_print(p); });
+  VX_OBS("dimensions/parameters/big", [](D& p, const D*) { return std::to_string(p.space_dimension()) + "/" + std::to_string(p.parameter_space_dimensions().size()) + "/" + std::to_string((long)p.get_big_parameter_dimension()); });
+  VX_BIN("operator=", [](D& p, const D* a) { p = *a; return std::string(); });
+  VX_BIN("m_swap(copy of arg)", [](D& p, const D* a) { D t(*a); p.m_swap(t); return std::string(); });
+  fill_io_x<D>(A, []() { return new D(); }, [](const D& a, const D& b) { return pip_tree_text(a) == pip_tree_text(b) && io_print(a) == io_print(b); }, [](const D& d) { return io_print(d); });
+  return A;
+}
+
+inline std::string mip_solve_text(PPL::MIP_Problem& p) {
+  PPL::MIP_Problem_Status s = p.solve();
+  if (s == PPL::UNFEASIBLE_MIP_PROBLEM) return "UNFEASIBLE";
+  if (s == PPL::UNBOUNDED_MIP_PROBLEM) return "UNBOUNDED feasible " + io_print(p.feasible_point());
+  Coefficient n, d; p.optimal_value(n, d);
+  return "OPTIMIZED " + io_print(n) + "/" + io_print(d) + " at " + io_print(p.optimizing_point());
+}
+
+inline ClassAdapter<PPL::MIP_Problem> mip_int_adapter() {
+  typedef PPL::MIP_Problem D; typedef Mut<D> M;
+  ClassAdapter<D> A; A.name = "MIP_Problem(integer variables)";
+  Variable x(0), y(1), z(2);
+  std::function<D*()> knap = [x, y, z]() {
+    D* p = new D(3); p->add_constraint(x >= 0); p->add_constraint(y >= 0); p->add_constraint(z >= 0);
+    p->add_constraint(3 * x + 2 * y + 4 * z <= 11); p->add_constraint(2 * x - y >= -1); p->add_constraint(x + z <= 3);
+    Variables_Set vs; vs.insert(x); vs.insert(y); vs.insert(z); p->add_to_integer_space_dimensions(vs);
+    p->set_objective_function(5 * x + 4 * y + 3 * z); return p; };
+  VX_INIT("ilp{3A+2B+4C<=11,2A-B>=-1,A+C<=3,>=0; all int; max 5A+4B+3C}", knap);
+  VX_INIT("same, solved", [knap]() { D* p = knap(); (void)p->solve(); return p; });
+  VX_INIT("same, is_satisfiable() only", [knap]() { D* p = knap(); (void)p->is_satisfiable(); return p; });
+  VX_INIT("same, solved, then 2B<=3 pending", [knap, y]() { D* p = knap(); (void)p->solve(); p->add_constraint(2 * y <= 3); return p; });
+  // (with A, B unbounded branch-and-bound does not terminate on this problem: a solver matter, not a round-trip one)
+  VX_INIT("mip{2A+2B==1 (no integer solution), -3<=A<=3, B free, int A,B}, solved", [x, y]() { D* p = new D(2); p->add_constraint(2 * x + 2 * y == 1); p->add_constraint(x <= 3); p->add_constraint(x >= -3); Variables_Set vs; vs.insert(x); vs.insert(y); p->add_to_integer_space_dimensions(vs); p->set_objective_function(x - y); (void)p->solve(); return p; });
+  VX_INIT("mip{A-B<=1,B<=7/2; int B; max A+B; STEEPEST_EDGE_EXACT}, solved", [x, y]() { D* p = new D(2); p->add_constraint(x - y <= 1); p->add_constraint(2 * y <= 7); Variables_Set vs; vs.insert(y); p->add_to_integer_space_dimensions(vs); p->set_objective_function(x + y); p->set_control_parameter(D::PRICING_STEEPEST_EDGE_EXACT); (void)p->solve(); return p; });
+  VX_INIT("mip{A>=0,B>=0,A-B<=2; int A; max A (unbounded)}, solved", [x, y]() { D* p = new D(2); p->add_constraint(x >= 0); p->add_constraint(y >= 0); p->add_constraint(x - y <= 2); Variables_Set vs; vs.insert(x); p->add_to_integer_space_dimensions(vs); p->set_objective_function(Linear_Expression(x)); (void)p->solve(); return p; });
+  VX_INIT("from constraint system, min 2A+3B, A+B>=3/2, int A", [x, y]() { PPL::Constraint_System cs; cs.insert(2 * x + 2 * y >= 3); cs.insert(x >= 0); cs.insert(y >= 0); cs.insert(x <= 4); D* p = new D(2, cs, 2 * x + 3 * y, PPL::MINIMIZATION); Variables_Set vs; vs.insert(x); p->add_to_integer_space_dimensions(vs); return p; });
+  VX_MUT("add_constraint(A<=2)", [x](D& p, const D*) { p.add_constraint(x <= 2); return std::string(); });
+  VX_MUT("add_constraint(2A+2B>=3)", [x, y](D& p, const D*) { p.add_constraint(2 * x + 2 * y >= 3); return std::string(); });
+  VX_MUT("add_constraint(A-B==0)", [x, y](D& p, const D*) { p.add_constraint(x - y == 0); return std::string(); });
+  VX_MUT("add_constraint(3B<=4)", [y](D& p, const D*) { p.add_constraint(3 * y <= 4); return std::string(); });
+  VX_MUT("add_constraint(A+B<=-1)", [x, y](D& p, const D*) { p.add_constraint(x + y <= -1); return std::string(); });
+  VX_MUT("add_constraints({A>=1,B>=1})", [x, y](D& p, const D*) { PPL::Constraint_System cs; cs.insert(x >= 1); cs.insert(y >= 1); p.add_constraints(cs); return std::string(); });
+  VX_MUT("add_space_dimensions_and_embed(1)", [](D& p, const D*) { p.add_space_dimensions_and_embed(1); return std::string(); });
+  VX_MUT("add_to_integer_space_dimensions({A})", [x](D& p, const D*) { Variables_Set vs; vs.insert(x); p.add_to_integer_space_dimensions(vs); return std::string(); });
+  VX_MUT("add_to_integer_space_dimensions({B})", [y](D& p, const D*) { Variables_Set vs; vs.insert(y); p.add_to_integer_space_dimensions(vs); return std::string(); });
+  VX_MUT("set_objective_function(A-2B)", [x, y](D& p, const D*) { p.set_objective_function(x - 2 * y); return std::string(); });
+  VX_MUT("set_objective_function(0)", [](D& p, const D*) { p.set_objective_function(Linear_Expression(0)); return std::string(); });
+  VX_MUT("set_objective_function(B+7)", [y](D& p, const D*) { p.set_objective_function(y + 7); return std::string(); });
+  VX_MUT("set_optimization_mode(MIN)", [](D& p, const D*) { p.set_optimization_mode(PPL::MINIMIZATION); return std::string(); });
+  VX_MUT("set_optimization_mode(MAX)", [](D& p, const D*) { p.set_optimization_mode(PPL::MAXIMIZATION); return std::string(); });
+  VX_MUT("set_pricing(TEXTBOOK)", [](D& p, const D*) { p.set_control_parameter(D::PRICING_TEXTBOOK); return std::string(); });
+  VX_MUT("set_pricing(STEEPEST_FLOAT)", [](D& p, const D*) { p.set_control_parameter(D::PRICING_STEEPEST_EDGE_FLOAT); return std::string(); });
+  VX_MUT("solve()", [](D& p, const D*) { return mip_solve_text(p); });
+  VX_MUT("is_satisfiable()", [](D& p, const D*) { bool b = p.is_satisfiable(); return b ? "true " + io_print(p.feasible_point()) : std::string("false"); });
+  VX_MUT("evaluate_objective_function(feasible_point) if satisfiable", [](D& p, const D*) { if (!p.is_satisfiable()) return std::string("unsat"); Coefficient n, d; p.evaluate_objective_function(p.feasible_point(), n, d); return io_print(n) + "/" + io_print(d); });
+  VX_MUT("clear()", [](D& p, const D*) { p.clear(); return std::string(); });
+  VX_OBS("OK()", [](D& p, const D*) { return b2s(p.OK()); });
+  VX_OBS("print", [](D& p, const D*) { return io_print(p); });
+  VX_OBS("integer_space_dimensions/objective/mode", [](D& p, const D*) { return io_print(p.integer_space_dimensions()) + " " + io_print(p.objective_function()) + " " + (p.optimization_mode() == PPL::MAXIMIZATION ? "max" : "min"); });
+  VX_BIN("operator=", [](D& p, const D* a) { p = *a; return std::string(); });
+  VX_BIN("m_swap(copy of arg)", [](D& p, const D* a) { D t(*a); p.m_swap(t); return std::string(); });
+  fill_io_x<D>(A, []() { return new D(); }, [](const D& a, const D& b) { return dump_of(a) == dump_of(b) || io_print(a) == io_print(b); }, [](const D& d) { return io_print(d); });
+  return A;
+}
+
 } // namespace vf
 #endif
